@@ -289,6 +289,8 @@ Definition separated : Prop :=
   (forall n n' u a, In n N -> In n' N -> In u Us -> covers v n (n', u, a) = String.eqb n' n)
   /\ (v_prefix v = true -> ~ In ""%string N).
 Definition users_ok : Prop := forall u, In u Us -> u <> MOD.
+(* every user spells its address in the canonical (lower-case) form: account = record key *)
+Definition canonical : Prop := forall u, In u Us -> acct u = u.
 
 Definition op_in (o : op) : Prop :=
   match o with
@@ -314,6 +316,7 @@ Record Inv (st : state) : Prop := mkInv {
 
 Hypothesis Hsep : separated.
 Hypothesis Hus : users_ok.
+Hypothesis Hcan : canonical.
 Hypothesis Hk : 0 <= k.
 
 Lemma sum_totals_nonneg ds : (forall x, In x ds -> 0 <= d_total x) -> 0 <= sum_totals ds.
@@ -351,7 +354,7 @@ Lemma create_inv st u priv foreign n amt p st' :
   /\ (forall n' u', bond_amt n' u' (bonds st') = bond_amt n' u' (bonds st) + if key_eqb n' u' n u then amt else 0)
   /\ (forall u', u' <> MOD -> bal u' UKEX (led st') = bal u' UKEX (led st) - if String.eqb u' u then amt else 0).
 Proof.
-  intros I (Hu & Hn & Hpf & Hamt & Hlp & Hmax) H. unfold create in H. rewrite Hpf in H.
+  intros I (Hu & Hn & Hpf & Hamt & Hlp & Hmax) H. unfold create in H. rewrite Hpf, (Hcan u Hu) in H.
   destruct (negb (v_fee_unchecked v) && ((p_fee p <? 0) || (PREC <? p_fee p)))%bool eqn:CF; [discriminate|].
   destruct (negb (v_create_negative v) && (amt <? 0))%bool eqn:C0; [discriminate|].
   destruct (negb priv && foreign)%bool eqn:C1; [discriminate|].
@@ -413,7 +416,7 @@ Lemma bond_inv st u n foreign amt st' :
   /\ (forall n' u', bond_amt n' u' (bonds st') = bond_amt n' u' (bonds st) + if key_eqb n' u' n u then amt else 0)
   /\ (forall u', u' <> MOD -> bal u' UKEX (led st') = bal u' UKEX (led st) - if String.eqb u' u then amt else 0) /\ 0 < amt.
 Proof.
-  intros I Hu H. unfold bond in H. destruct (get_dapp n st) as [d|] eqn:G; [|discriminate].
+  intros I Hu H. unfold bond in H. rewrite (Hcan u Hu) in H. destruct (get_dapp n st) as [d|] eqn:G; [|discriminate].
   apply get_dapp_find in G. destruct G as [F Hne].
   destruct foreign; [discriminate|].
   destruct (max_thr c <? d_total d + amt) eqn:E0; [discriminate|].
@@ -458,7 +461,7 @@ Lemma reclaim_inv st u n foreign amt st' :
   /\ (forall n' u', bond_amt n' u' (bonds st') = bond_amt n' u' (bonds st) - if key_eqb n' u' n u then amt else 0)
   /\ (forall u', u' <> MOD -> bal u' UKEX (led st') = bal u' UKEX (led st) + if String.eqb u' u then amt else 0) /\ 0 < amt.
 Proof.
-  intros I Hu H. unfold reclaim in H. destruct (get_dapp n st) as [d|] eqn:G; [|discriminate].
+  intros I Hu H. unfold reclaim in H. rewrite (Hcan u Hu) in H. destruct (get_dapp n st) as [d|] eqn:G; [|discriminate].
   apply get_dapp_find in G. destruct G as [F Hne].
   destruct (negb (has_bond n u (bonds st))) eqn:Hb; [discriminate|].
   destruct foreign; [discriminate|].
@@ -546,13 +549,13 @@ Qed.
 
 Definition paid_to (a d : string) (cs : bonds_t) : Z := zsum (map (fun e => delta a d (snd (fst e)) UKEX (snd e)) cs).
 
-Lemma pay_all_spec sk cs : forall l l', (forall e, In e cs -> 0 <= snd e) -> pay_all sk cs l = Ok l' ->
+Lemma pay_all_spec sk cs : forall l l', (forall e, In e cs -> 0 <= snd e /\ acct (snd (fst e)) = snd (fst e)) -> pay_all sk cs l = Ok l' ->
   forall a d, bal a d l' = bal a d l - delta a d MOD UKEX (zsum (map snd cs)) + paid_to a d cs.
 Proof.
   induction cs as [|e r IH]; intros l l' Hnn H a d; simpl in H.
   - inversion H; subst. unfold paid_to, delta. simpl. destruct (key_eqb a d MOD UKEX); lia.
-  - assert (He : 0 <= snd e) by (apply Hnn; now left).
-    assert (Hr : forall x, In x r -> 0 <= snd x) by (intros; apply Hnn; now right).
+  - destruct (Hnn e (or_introl eq_refl)) as [He Hce]. rewrite Hce in H.
+    assert (Hr : forall x, In x r -> 0 <= snd x /\ acct (snd (fst x)) = snd (fst x)) by (intros; apply Hnn; now right).
     unfold paid_to in *. simpl. destruct (sk && (snd e <=? 0))%bool eqn:S.
     + rewrite (IH l l' Hr H a d). assert (snd e = 0) by lia. rewrite H0. unfold delta.
       destruct (key_eqb a d MOD UKEX), (key_eqb a d (snd (fst e)) UKEX); lia.
@@ -562,14 +565,14 @@ Proof.
 Qed.
 
 Lemma pay_all_ok sk cs : forall l, (sk = true \/ forall e, In e cs -> 0 < snd e) ->
-  (forall e, In e cs -> 0 <= snd e /\ snd (fst e) <> MOD) -> zsum (map snd cs) <= bal MOD UKEX l ->
+  (forall e, In e cs -> 0 <= snd e /\ snd (fst e) <> MOD /\ acct (snd (fst e)) = snd (fst e)) -> zsum (map snd cs) <= bal MOD UKEX l ->
   exists l', pay_all sk cs l = Ok l'.
 Proof.
   induction cs as [|e r IH]; intros l Hp Hnn Hb; simpl; [eauto|].
-  destruct (Hnn e (or_introl eq_refl)) as [He Hm]. simpl in Hb.
-  assert (Hr : forall x, In x r -> 0 <= snd x /\ snd (fst x) <> MOD) by (intros; apply Hnn; now right).
+  destruct (Hnn e (or_introl eq_refl)) as (He & Hm & Hce). simpl in Hb. rewrite Hce.
+  assert (Hr : forall x, In x r -> 0 <= snd x /\ snd (fst x) <> MOD /\ acct (snd (fst x)) = snd (fst x)) by (intros; apply Hnn; now right).
   assert (Hrs : 0 <= zsum (map snd r)).
-  { clear -Hr. induction r as [|x r IH]; simpl; [lia|]. assert (0 <= snd x) by (apply Hr; now left).
+  { clear -Hr. induction r as [|x r IH]; simpl; [lia|]. assert (0 <= snd x) by (apply (Hr x); now left).
     assert (0 <= zsum (map snd r)) by (apply IH; intros; apply Hr; now right). lia. }
   assert (Hp' : sk = true \/ forall x, In x r -> 0 < snd x) by (destruct Hp as [Hp|Hp]; [now left|right; intros; apply Hp; now right]).
   destruct (sk && (snd e <=? 0))%bool eqn:S.
@@ -583,7 +586,7 @@ Qed.
 Lemma pay_all_not_panic sk cs : forall l s, pay_all sk cs l <> Panic s.
 Proof.
   induction cs as [|e r IH]; intros l s; simpl; [discriminate|]. destruct (sk && (snd e <=? 0))%bool; [apply IH|].
-  destruct (send MOD (snd (fst e)) UKEX (snd e) l) eqn:E; cbn [bind]; [apply IH|discriminate|]. now apply send_not_panic in E.
+  destruct (send MOD (acct (snd (fst e))) UKEX (snd e) l) eqn:E; cbn [bind]; [apply IH|discriminate|]. now apply send_not_panic in E.
 Qed.
 
 Lemma paid_to_own n u bs : paid_to u UKEX (filter (of_dapp n) bs) = bond_amt n u bs.
@@ -632,8 +635,8 @@ Proof.
   rewrite (covered_own st n I HnN) in H.
   destruct (pay_all (negb (v_zero_blocks v)) (filter (of_dapp n) (bonds st)) (led st)) as [l| |] eqn:E; [|discriminate|discriminate].
   cbn [bind] in H. inversion H; subst; clear H. simpl.
-  assert (Hnn : forall e, In e (filter (of_dapp n) (bonds st)) -> 0 <= snd e).
-  { intros e He. apply filter_In in He. apply (bonds_nonneg st I). tauto. }
+  assert (Hnn : forall e, In e (filter (of_dapp n) (bonds st)) -> 0 <= snd e /\ acct (snd (fst e)) = snd (fst e)).
+  { intros e He. apply filter_In in He. destruct He as [He _]. destruct (i_bonds _ I e He) as (_ & B & C & _). split; [exact C|now apply Hcan]. }
   pose proof (pay_all_spec _ _ _ _ Hnn E) as L. rewrite del_all_own.
   assert (PM : paid_to MOD UKEX (filter (of_dapp n) (bonds st)) = 0).
   { unfold paid_to. assert (G : forall bs : bonds_t, (forall e, In e bs -> snd (fst e) <> MOD) -> zsum (map (fun e => delta MOD UKEX (snd (fst e)) UKEX (snd e)) bs) = 0).
@@ -658,7 +661,7 @@ Proof.
   destruct (pay_all_ok (negb (v_zero_blocks v)) (filter (of_dapp n) (bonds st)) (led st)) as [l E].
   - destruct G as [G|G]; [left; now rewrite G|right]. intros [[n' u] a] He. apply filter_In in He. destruct He as [He Ho].
     apply of_dapp_true in Ho. simpl in *. subst n'. eapply G; eauto.
-  - intros e He. apply filter_In in He. destruct He as [He _]. destruct (i_bonds _ I e He) as (_ & B & C & _). split; [exact C|now apply Hus].
+  - intros e He. apply filter_In in He. destruct He as [He _]. destruct (i_bonds _ I e He) as (_ & B & C & _). split; [exact C|split; [now apply Hus|now apply Hcan]].
   - rewrite sum_own, <- (i_sum _ I n d F S).
     assert (d_total d <= sum_totals (dapps st)).
     { apply total_le_sum; [|apply find_dapp_In in F; tauto]. intros x Hx.
@@ -919,7 +922,7 @@ Qed.
 
 (* ================================================================ a failed bootstrap refunds everybody *)
 Lemma failed_bootstrap_refund v c N Us k st d :
-  separated v N Us -> users_ok Us -> 0 <= k -> Inv c N Us k st ->
+  separated v N Us -> users_ok Us -> canonical Us -> 0 <= k -> Inv c N Us k st ->
   find_dapp (d_name d) (dapps st) = Some d -> d_status d = 0 -> d_total d < min_thr c ->
   (v_zero_blocks v = false \/ forall u a, In (d_name d, u, a) (bonds st) -> 0 < a) ->
   exists st', finish v c d st = Ok st'
@@ -928,9 +931,9 @@ Lemma failed_bootstrap_refund v c N Us k st d :
     /\ (forall u, u <> MOD -> bal u UKEX (led st') = bal u UKEX (led st) + bond_amt (d_name d) u (bonds st))
     /\ Inv c N Us k st'.
 Proof.
-  intros Hs Hu Hk I F S Hmin G. destruct (refund_succeeds v c N Us k Hs Hu Hk st _ d I F S G) as [st' R].
+  intros Hs Hu Hc Hk I F S Hmin G. destruct (refund_succeeds v c N Us k Hs Hu Hc Hk st _ d I F S G) as [st' R].
   exists st'. unfold finish. assert (X : (d_total d <? min_thr c) = true) by lia. rewrite X, R.
-  destruct (refund_spec v c N Us k Hs Hu st _ d st' I F S R) as (I' & _ & Hd & Hb & Hbal & _).
+  destruct (refund_spec v c N Us k Hs Hu Hc st _ d st' I F S R) as (I' & _ & Hd & Hb & Hbal & _).
   split; [reflexivity|]. split; [rewrite Hd, find_remove, String.eqb_refl; reflexivity|]. split; [|split; [exact Hbal|exact I']].
   intros e He. rewrite Hb in He. apply filter_In in He. destruct He as [_ He]. apply negb_true_iff in He.
   unfold of_dapp in He. now apply String.eqb_neq in He.
@@ -995,9 +998,10 @@ Variable c : config.
 Variable N Us : list string.
 Hypothesis Hsep : separated v N Us.
 Hypothesis Hus : users_ok Us.
+Hypothesis Hcan : canonical Us.
 
 Lemma history_inv ops l : 0 <= bal MOD UKEX l -> Forall (op_in v c N Us) ops -> Inv c N Us (bal MOD UKEX l) (run v c ops (empty_state l)).
-Proof. intros Hl Ho. apply (run_inv v c N Us _ Hsep Hus); [now apply Inv_empty|exact Ho]. Qed.
+Proof. intros Hl Ho. apply (run_inv v c N Us _ Hsep Hus Hcan); [now apply Inv_empty|exact Ho]. Qed.
 
 Lemma total_is_sum ops l : 0 <= bal MOD UKEX l -> Forall (op_in v c N Us) ops ->
   forall n d, find_dapp n (dapps (run v c ops (empty_state l))) = Some d -> d_status d = 0 ->
@@ -1015,7 +1019,7 @@ Proof. intros Hl Ho. apply (i_held _ _ _ _ _ (history_inv ops l Hl Ho)). Qed.
 Lemma deposits_minus_reclaims k ops st : Inv c N Us k st -> Forall (op_in v c N Us) ops -> forallb is_user_op ops = true ->
   (forall n u, bond_amt n u (bonds (run v c ops st)) = bond_amt n u (bonds st) + net_flow v c ops st n u)
   /\ (forall u, u <> MOD -> bal u UKEX (led (run v c ops st)) = bal u UKEX (led st) - net_out v c ops st u).
-Proof. apply (bonds_follow_flows v c N Us k Hsep Hus). Qed.
+Proof. apply (bonds_follow_flows v c N Us k Hsep Hus Hcan). Qed.
 
 (* the refund at the end of block, for any state reached by a history *)
 Lemma refund_after_history ops l d :
@@ -1029,7 +1033,7 @@ Lemma refund_after_history ops l d :
     /\ (forall u, u <> MOD -> bal u UKEX (led st') = bal u UKEX (led st) + bond_amt (d_name d) u (bonds st)).
 Proof.
   intros Hl Ho st F S M G.
-  destruct (failed_bootstrap_refund v c N Us _ st d Hsep Hus Hl (history_inv ops l Hl Ho) F S M G) as (st' & A & B & C & D & _).
+  destruct (failed_bootstrap_refund v c N Us _ st d Hsep Hus Hcan Hl (history_inv ops l Hl Ho) F S M G) as (st' & A & B & C & D & _).
   exists st'. auto.
 Qed.
 End Statements.
@@ -1040,10 +1044,11 @@ Definition ex_users : list string := [rU0; rU1; rU2].
 Definition ex_ops : list op :=
   [OCreate rU0 false false "alpha" 20000 (rp "lp/alpha"); OBond rU1 "alpha" false 700; OCreate rU1 false false "beta" 2000000 (rp "lp/beta");
    OReclaim rU1 "alpha" false 200; OTick 2000].
-Lemma ex_guards : sepb ex_names ex_users = true /\ users_ok ex_users /\ Forall (op_in as_is rcfg ex_names ex_users) ex_ops.
+Lemma ex_guards : sepb ex_names ex_users = true /\ users_ok ex_users /\ canonical ex_users /\ Forall (op_in as_is rcfg ex_names ex_users) ex_ops.
 Proof.
-  split; [vm_compute; reflexivity|]. split.
+  split; [vm_compute; reflexivity|]. split; [|split].
   - intros u Hu. simpl in Hu. intros ->. repeat (destruct Hu as [Hu|Hu]; [discriminate|]). exact Hu.
+  - intros u Hu. simpl in Hu. repeat (destruct Hu as [<-|Hu]; [vm_compute; reflexivity|]). destruct Hu.
   - unfold ex_ops, ex_names, ex_users. repeat apply Forall_cons; try apply Forall_nil; simpl; repeat split;
       try discriminate; try lia; try (simpl; auto 8; fail); try (intros; vm_compute; discriminate).
 Qed.
@@ -1061,8 +1066,8 @@ Definition fixed (v : variant) : Prop := v_prefix v = false /\ v_zero_blocks v =
    holder of the bond-free creation permission *)
 Definition wf_op (o : op) : Prop :=
   match o with
-  | OCreate u priv foreign _ amt p => u <> MOD /\ (priv && foreign)%bool = false /\ 0 <= amt /\ p_lp p <> UKEX
-  | OBond u _ _ _ | OReclaim u _ _ _ => u <> MOD
+  | OCreate u priv foreign _ amt p => (u <> MOD /\ acct u = u) /\ (priv && foreign)%bool = false /\ 0 <= amt /\ p_lp p <> UKEX
+  | OBond u _ _ _ | OReclaim u _ _ _ => u <> MOD /\ acct u = u
   | OTick _ | OLpMsg _ _ _ _ _ _ => True
   | _ => False
   end.
@@ -1091,6 +1096,11 @@ Proof.
   intros W u Hu. unfold users_of in Hu. apply in_flat_map in Hu. destruct Hu as (o & Ho & Hu).
   rewrite Forall_forall in W. specialize (W o Ho). destruct o; simpl in *; try tauto; destruct Hu as [<-|[]]; tauto.
 Qed.
+Lemma wf_canonical ops : Forall wf_op ops -> canonical (users_of ops).
+Proof.
+  intros W u Hu. unfold users_of in Hu. apply in_flat_map in Hu. destruct Hu as (o & Ho & Hu).
+  rewrite Forall_forall in W. specialize (W o Ho). destruct o; simpl in *; try tauto; destruct Hu as [<-|[]]; tauto.
+Qed.
 
 Section Fixed.
 Variable v : variant.
@@ -1103,6 +1113,7 @@ Proof.
   intros Hl W. destruct Hfix as (F1 & F2 & F3). apply history_inv; auto.
   - now apply repaired_separated.
   - now apply wf_users_ok.
+  - now apply wf_canonical.
   - apply wf_ops_in; auto; apply incl_refl.
 Qed.
 
@@ -1131,6 +1142,7 @@ Proof.
   destruct (failed_bootstrap_refund v c (names_of ops) (users_of ops) (bal MOD UKEX l) st d) as (st' & A & B & C & D & _); auto.
   - now apply repaired_separated.
   - now apply wf_users_ok.
+  - now apply wf_canonical.
   - now apply fixed_inv.
   - exists st'. auto.
 Qed.
@@ -1145,9 +1157,10 @@ Proof.
   set (N := names_of (pre ++ ops)). set (Us := users_of (pre ++ ops)).
   assert (Hs : separated v N Us) by now apply repaired_separated.
   assert (Hk : users_ok Us) by now apply wf_users_ok.
+  assert (Hcn : canonical Us) by now apply wf_canonical.
   assert (Hall : Forall (op_in v c N Us) (pre ++ ops)) by (apply wf_ops_in; auto; apply incl_refl).
   apply Forall_app in Hall. destruct Hall as [Hp Ho].
-  apply (bonds_follow_flows v c N Us (bal MOD UKEX l) Hs Hk); auto. apply history_inv; auto.
+  apply (bonds_follow_flows v c N Us (bal MOD UKEX l) Hs Hk Hcn); auto. apply history_inv; auto.
 Qed.
 End Fixed.
 
